@@ -322,11 +322,43 @@ pub fn finish(ctx: &Ctx, ev: Evidence) -> i32 {
         known_hit.len(),
         wall
     );
-    if new_violations.is_empty() {
-        0
-    } else {
-        1
+    if !new_violations.is_empty() {
+        return 1;
     }
+    // generator health: a run whose number of distinct non-trivial cases collapsed (to under 30 % of
+    // what the same tier explores on the unchanged tree) has not shown that the property holds
+    if ctx.replay.is_none() {
+        let quick_baseline: u64 = match ctx.id.as_str() {
+            "C01" => 1_500_000,
+            "C02" => 37_000,
+            "C03" => 390_000,
+            "C04" => 3_200_000,
+            "C05" => 275_000,
+            "C06" => 53_000,
+            "C07" => 110_000,
+            "C08" => 2_097_152,
+            "C09" => 1_616,
+            "C10" => 200_000,
+            "C11" => 380_000,
+            "C12" => 230_000,
+            "C13" => 140_000,
+            "C14" => 315_000,
+            "C15" => 1_170_000,
+            "C16" => 48_000,
+            "C17" => 5_700,
+            _ => 0,
+        };
+        if (ev.nontrivial.len() as u64) * 10 < quick_baseline * 3 {
+            println!(
+                "INCONCLUSIVE property={} only {} distinct non-trivial cases were explored (the quick tier reaches about {} on the unchanged tree): generator health check failed, nothing is claimed",
+                ctx.id,
+                ev.nontrivial.len(),
+                quick_baseline
+            );
+            return 2;
+        }
+    }
+    0
 }
 
 // ---------------------------------------------------------------------------------------
